@@ -771,7 +771,11 @@ impl Edges {
         // seem efficient.
         for version in versions {
             let specifier = VersionSpecifier::equals_version(version.clone());
-            let specifier = python_version_to_full_version(specifier)?;
+            let specifier = match python_version_to_full_version(specifier) {
+                Ok(specifier) => specifier,
+                // The list is a constant; `not in` is still its negation.
+                Err(node) => return Err(if negated { node.not() } else { node }),
+            };
             let pubgrub_specifier = release_specifier_to_range(normalize_specifier(specifier));
             range = range.union(&pubgrub_specifier);
         }
